@@ -317,12 +317,29 @@ def orderCountOf (version bc : Nat) : Nat :=
     let oc := if bc % 5 != 0 then oc + 1 else oc
     oc * 2
 
-/-- the `if bonds_count:` block of `unpack`: connection table, flat order list, adjacency reconstruction.
-    (v0: `for j in range(order_shift, cis_trans_shift, 2): a, b = data[j], data[j + 1]` reads the same bytes.) -/
+/-- version 0: `for j in range(order_shift, cis_trans_shift, 2): a, b = data[j], data[j + 1]` — the bytes read by `n`
+    iterations starting at `lo`, in reading order (`data[j]` first; either read past the end is the `IndexError`) -/
+def readPairsV0 (data : List Nat) : Nat → Nat → Except PErr (List Nat)
+  | _, 0 => .ok []
+  | lo, n + 1 =>
+    match data[lo]?, data[lo + 1]? with
+    | some a, some b => do
+        let r ← readPairsV0 data (lo + 2) n
+        pure (a :: b :: r)
+    | _, _ => .error .overread
+
+/-- the bytes the flat-bond-order loop reads: version 2 `for j in range(order_shift, cis_trans_shift)` one byte per
+    iteration; version 0 `range(order_shift, cis_trans_shift, 2)` = `⌈order_count / 2⌉` iterations of two reads each
+    (`Proofs.C10.readOrderBytes_eq`: for the `order_count` the decoder computes both are the contiguous block) -/
+def readOrderBytes (data : List Nat) (version orderShift orderCount : Nat) : Except PErr (List Nat) :=
+  if version == 2 then readRange data orderShift orderCount
+  else readPairsV0 data orderShift ((orderCount + 1) / 2)
+
+/-- the `if bonds_count:` block of `unpack`: connection table, flat order list, adjacency reconstruction. -/
 def decodeBonds (data : List Nat) (version bc orderShift orderCount : Nat) (recs : List (PAtom × Nat))
     (afterAtoms : List Nat) : Except PErr (List PAtom) :=
   if afterAtoms.length < 3 * bc then .error .overread else do
-    let bytes ← readRange data orderShift orderCount
+    let bytes ← readOrderBytes data version orderShift orderCount
     rebuild [] [] recs (pairDec (afterAtoms.take (3 * bc)))
       (if version == 2 then orderDec 0 0 bytes else orderDecV0 bytes)
 
